@@ -1571,17 +1571,27 @@ def q_fifo(chk, program):
             chk.check(okd, 'Q-FIFO', f"{q}::task_done", file=IO, line=g.nodes[x].line, func=q, expected='task_done() on every normal path from get() to the next iteration', found='ok' if okd else 'missing on some path', nontrivial=False)
 
 def rx_frame(chk, program):
-    """framing constants: exact-read size of the EByte client == decode_tcp's packet length (largest index + 1 bound by 5 + 8)"""
+    """framing per decoder front-end: the fixed-size binary format (decode_tcp) needs an exact-size read of the packet length the encoder
+    produces; the text formats need line reads; the windowed serial format is C20's"""
     for q, classes in sorted(impls(program, '_receive_impl').items()):
         g = cfg_of(program, q)
-        for nid, c, meth in reader_reads(g):
-            if meth == 'readexactly':
-                n = _const_int(c.args[0]) if c.args else None
-                chk.check(n == 13, 'RX-FRAME', f"{q}::readexactly", file=IO, line=c.lineno, func=q, expected='13 = 1 type byte + 4 identifier bytes + 8 data bytes (EByte fixed framing, C06 WF-LEN13)', found=n)
-            elif meth == 'readline':
-                chk.ok('RX-FRAME', f"{q}::readline", file=IO, line=c.lineno, func=q, found='line framing (CR LF terminated text formats)', nontrivial=False)
-            elif meth == 'read':
-                chk.ok('RX-FRAME', f"{q}::read", file=IO, line=c.lineno, func=q, found='windowed framing (see C20 SER-CONST)', nontrivial=False)
+        fronts = {c.func.attr for _, c in nodes_calling(g, lambda c: isinstance(c.func, ast.Attribute) and c.func.attr.startswith('decode_') and is_self_attr(c.func.value, ('decoder',)))}
+        reads = reader_reads(g)
+        kinds = sorted({meth for _, _, meth in reads})
+        if 'decode_tcp' in fronts:
+            ok = len(reads) == 1 and reads[0][2] == 'readexactly' and _const_int(reads[0][1].args[0]) == 13
+            chk.check(ok, 'RX-FRAME', f"{q}::fixed-13-byte-framing", file=IO, line=reads[0][1].lineno if reads else g.fn.lineno, func=q,
+                      expected='one `await self.reader.readexactly(13)` per packet: 1 type byte + 4 identifier bytes + 8 data bytes (C06 WF-LEN13)',
+                      found=[f"{m}({ast.unparse(c.args[0]) if c.args else ''})" for _, c, m in reads],
+                      detail='' if ok else 'read(n) may return fewer bytes when a packet is split across TCP segments: the partial packet is decoded and every later 13-byte window is shifted')
+        elif fronts & {'decode_actisense_string', 'decode_yacht_devices_string'}:
+            ok = len(reads) == 1 and reads[0][2] in ('readline', 'readuntil')
+            chk.check(ok, 'RX-FRAME', f"{q}::line-framing", file=IO, line=reads[0][1].lineno if reads else g.fn.lineno, func=q,
+                      expected='one line read per packet (CR LF terminated text formats)', found=kinds)
+        elif 'decode_usb' in fronts:
+            chk.ok('RX-FRAME', f"{q}::window-framing", file=IO, line=g.fn.lineno, func=q, found='marker + 20-byte window (C20 SER-CONST, BUF-PROGRESS)', nontrivial=False)
+        else:
+            chk.unknown('RX-FRAME', q, f"front-end(s) {sorted(fronts)} not classified", IO, g.fn.lineno)
 
 def ser_state(chk, program):
     """the serial path's only persistent state is the buffer; new bytes are appended before scanning; the scan loop exits only by the two need-more-data conditions"""
@@ -1708,3 +1718,63 @@ def handler_cannot_raise(chk, program, rule='Q-FIFO'):
             chk.check(not bad, rule, f"{q}::callback-handler-cannot-fail", file=IO, line=h.lineno, func=q,
                       expected='handler only logs plain names / attributes / f-strings of them (nothing in it can raise)', found=bad or 'logging only',
                       detail='' if not bad else 'an exception inside the handler (e.g. a method that exists only for some message kinds) ends the consumer task: later messages are queued and never delivered')
+
+def lock_window(chk, program, rule='ONE-RX'):
+    """after the new receive task has been created, connect() reaches the end of its locked region without any await: the receive loop --
+    whose fault path needs connect() -- never runs while the connect lock is still held (a connect() issued then returns 'already running')"""
+    q = f"{BASE}.connect"
+    g = cfg_of(program, q)
+    starts = [x for x, c in nodes_calling(g, lambda c: call_name(c).endswith('create_task') and c.args and isinstance(c.args[0], ast.Call) and is_self_call(c.args[0], '_receive_loop'))]
+    for sidx in starts:
+        r = g.reach(sidx, labels_excluded=('exc',))
+        # awaits after the start that are still inside the `async with self.lock` body (the with-exit itself is not a suspension that matters)
+        aw = [x for x in r if g.is_await(x) and g.nodes[x].kind != 'withexit' and not (g.nodes[x].kind == 'iter')]
+        # only those reachable before the loop is re-entered / function exits without passing the async-with exit
+        wx = [n.id for n in g.nodes if n.kind == 'withexit' and isinstance(n.ast, ast.AsyncWith)]
+        # a successful attempt ends tenacity's retry iteration: the walk stops at the retry loop header and at the lock exit
+        stop = wx + [n.id for n in g.nodes if n.kind == 'iter' and isinstance(n.ast, ast.AsyncFor)]
+        inside = [x for x in aw if x in g.reach(sidx, avoid=stop, labels_excluded=('exc',))]
+        chk.check(not inside, rule, f"{q}::no-await-between-task-start-and-lock-release", file=IO, line=g.nodes[sidx].line, func=q,
+                  expected='nothing is awaited between creating the receive task and leaving the connect lock',
+                  found=[f"await@line{g.nodes[x].line}:{stmt_key(g.nodes[x].ast)}" for x in inside] or 'ok',
+                  detail='' if not inside else 'the new receive loop can fault while connect() still holds the lock (e.g. inside a slow status callback): its reconnect request is dropped as "already running" and nobody retries')
+
+def send_types(chk, program, rule='SEND-TYPES'):
+    """what _encode_impl hands to writer.write is bytes: each implementation returns the result of an encoder method annotated -> list[bytes]
+    (a str, or a list of str, makes write() raise TypeError, which send() treats as a lost connection)"""
+    enc = program.mod('encoder')
+    def ann_of(method):
+        f = enc.defs.get(f"NMEA2000Encoder.{method}")
+        return ast.unparse(f.returns) if f is not None and f.returns is not None else None
+    def type_of(e):
+        if isinstance(e, ast.Call) and isinstance(e.func, ast.Attribute) and isinstance(e.func.value, ast.Attribute) and e.func.value.attr == 'encoder':
+            return ann_of(e.func.attr)
+        if isinstance(e, ast.Constant):
+            return type(e.value).__name__
+        if isinstance(e, ast.JoinedStr):
+            return 'str'
+        if isinstance(e, ast.BinOp) and isinstance(e.op, ast.Add):
+            a, b = type_of(e.left), type_of(e.right)
+            return a if a == b else (a or b) if (a is None or b is None) else f"{a}+{b}"
+        if isinstance(e, ast.Call) and isinstance(e.func, ast.Attribute) and e.func.attr == 'encode':
+            return 'bytes'
+        if isinstance(e, ast.List):
+            ts = {type_of(x) for x in e.elts}
+            return f"list[{ts.pop()}]" if len(ts) == 1 else f"list[{'|'.join(sorted(str(t) for t in ts))}]"
+        if isinstance(e, ast.ListComp):
+            return f"list[{type_of(e.elt)}]"
+        return None
+    for iq, classes in sorted(impls(program, '_encode_impl').items()):
+        fn = program.fn('ioclient', iq)
+        rets = [n for n in ast.walk(fn) if isinstance(n, ast.Return) and n.value is not None]
+        raises = [n for n in ast.walk(fn) if isinstance(n, ast.Raise)]
+        if not rets:
+            chk.check(bool(raises), rule, f"{iq}::returns", file=IO, line=fn.lineno, func=iq, expected='returns packets or raises', found='neither', nontrivial=False)
+            continue
+        for r in rets:
+            t = type_of(r.value)
+            if t is None:
+                chk.unknown(rule, iq, f"type of `{ast.unparse(r.value)[:60]}` not inferable", IO, r.lineno)
+                continue
+            chk.check(t == 'list[bytes]', rule, f"{iq}::packet-type", file=IO, line=r.lineno, func=iq, expected='list[bytes]', found=t,
+                      detail='' if t == 'list[bytes]' else 'StreamWriter.write(str) raises TypeError; send() handles it as a lost connection (DISCONNECTED + reconnect) for a perfectly good message')
